@@ -80,3 +80,97 @@ C(f"{F}:Parser.check_version", params={**P, "min_version": "version", "error_msg
 C(f"{F}:Parser.raise_raw_syntax_error", params={**P, "message": "str", "start": "opt[pos]", "end": "opt[pos]"}, verify=False,
   why_assumed="one-line wrapper `raise self._build_syntax_error(...)`; its callee is under contract", always_raises=True,
   raises=["SyntaxError"], properties=["C02", "C03"])
+
+C(f"{F}:Parser.seq_alts", params=P, vararg="seq[rulefn]", returns="val", requires=POK,
+  ensures=KEEP + ["can_peek(self._tokenizer)", f"implies(not truthy(result), {IDX} == {OIDX})",   # every failed alternative is undone
+                  f"implies(truthy(result), {IDX} >= {OIDX})"],
+  loops={0: {"inv": ["tk_ok(self._tokenizer)", "can_peek(self._tokenizer)", f"mark == {OIDX}", f"{IDX} == mark",
+                     "prefix_of(old(self._tokenizer._tokens), self._tokenizer._tokens)"]}},
+  modifies=RULEMOD, raises=["SyntaxError"], properties=["C17"])
+
+C(f"{F}:Parser.sep_repeated", params={**P, "func": "rulefn", "sep_func": "rulefn+"}, vararg="any", returns="val", requires=POK,
+  ensures=KEEP + ["can_peek(self._tokenizer)", f"implies(truthy(result), {IDX} > {OIDX})"], strict_progress=True,
+  modifies=RULEMOD, raises=["SyntaxError"], properties=["C17"])
+
+C(f"{F}:Parser.gathered", params={**P, "func": "rulefn", "sep": "rulefn+"}, vararg="any", returns="opt[seq[val]]", requires=POK,
+  ensures=KEEP + ["can_peek(self._tokenizer)", f"implies(is_none(result), {IDX} == {OIDX})",
+                  f"implies(not is_none(result), {IDX} >= {OIDX} and len(result) >= 1)"],
+  modifies=RULEMOD, raises=["SyntaxError"], properties=["C17"])
+
+C(f"{F}:Parser.parse", params={**P, "rule": "str", "call_invalid_rules": "bool=False"}, returns="val",
+  requires=POK + ["self._tokenizer._index == 0"],
+  ensures=["not is_none(result)",                                   # C03: never None
+           "self.call_invalid_rules == call_invalid_rules"],         # C02: a tree is only ever returned from the pass that was asked for
+  modifies=RULEMOD + ["self.call_invalid_rules"], raises=["SyntaxError"], properties=["C02", "C03"])
+
+C(f"{F}:Parser.extract_import_level", params={**P, "tokens": "seq[Tok]"}, returns="int",
+  ensures=["result >= len(tokens)", "result <= 3 * len(tokens)",
+           "implies(all(tokens[j].string == '.' for j in range(len(tokens))), result == len(tokens))",      # '.' counts one
+           "implies(all(tokens[j].string != '.' for j in range(len(tokens))), result == 3 * len(tokens))"],  # '...' counts three
+  loops={0: {"inv": ["level >= _i", "level <= 3 * _i",
+                     "implies(all(tokens[j].string == '.' for j in range(_i)), level == _i)",
+                     "implies(all(tokens[j].string != '.' for j in range(_i)), level == 3 * _i)"]}},
+  raises=[], pure=True, properties=["C01"])
+
+C(f"{F}:Parser.is_adjacent", params={"prev": "Tok", "curr": "Tok"}, returns="bool",
+  ensures=["result == (prev.end == curr.start)"], raises=[], pure=True, properties=["C06"])
+
+# ---------------------------------------------------------------------------------------------- wrappers (C15, C17, C18)
+WCL = {"method": "rulefn", "method_name": "str"}
+OBS = ["self._tokenizer._index", "self._cache", "self._level", "self.in_recursive_rule", "self.call_invalid_rules",
+       "self._tokenizer._abs"]
+KEYP = "old(self._tokenizer._index)"
+
+CACHE_OK = "cache_ok(self._cache, self._tokenizer)"
+
+C(f"{F}:memoize.memoize_wrapper", params=P, vararg="any", closure=WCL, returns="val", requires=POK + [CACHE_OK],
+  ensures=KEEP + ["can_peek(self._tokenizer)", CACHE_OK, "self._level == old(self._level)",
+                  f"cache_has(self._cache, {KEYP})",                                   # packrat: the entry exists afterwards ...
+                  f"cache_end(self._cache, {KEYP}) == {IDX}",                          # ... and records where the rule stopped
+                  f"result == cache_tree(self._cache, {KEYP})",
+                  # a hit replays the stored outcome without running the method (observational transparency, C17/C18)
+                  f"implies(old(cache_has(self._cache, self._tokenizer._index)), result == old(cache_tree(self._cache, self._tokenizer._index))"
+                  f" and {IDX} == old(cache_end(self._cache, self._tokenizer._index)) and self._tokenizer._abs == old(self._tokenizer._abs))"],
+  modifies=RULEMOD + ["self._level"], raises=["SyntaxError"], properties=["C15", "C17", "C18"])
+
+C(f"{F}:memoize.memoize_wrapper#product", params=P, vararg="any", closure=WCL, returns="val",
+  requires=POK + [CACHE_OK],
+  product={"on": "self._verbose", "observe": OBS}, properties=["C15"])
+
+C(f"{F}:logger.logger_wrapper", params=P, vararg="any", closure=WCL, returns="val", requires=POK,
+  ensures=KEEP + ["self._level == old(self._level)"], modifies=RULEMOD + ["self._level"], raises=["SyntaxError"], properties=["C15"])
+
+C(f"{F}:logger.logger_wrapper#product", params=P, vararg="any", closure=WCL, returns="val", requires=POK,
+  product={"on": "self._verbose", "observe": OBS}, properties=["C15"])
+
+LR_OK = "lr_cache_ok(self._cache)"
+LR_INV = ["tk_ok(self._tokenizer)", "can_peek(self._tokenizer)", CACHE_OK, LR_OK,
+          "prefix_of(old(self._tokenizer._tokens), self._tokenizer._tokens)",
+          f"mark == {KEYP}", "0 <= mark <= lastmark", "lastmark <= len(self._tokenizer._tokens)",
+          "lastmark < len(self._tokenizer._tokens) or not em_cached(self._tokenizer)",
+          "cache_has(self._cache, mark)", "cache_end(self._cache, mark) == lastmark", "cache_tree(self._cache, mark) == lastresult",
+          "implies(truthy(lastresult), lastmark > mark) or lastmark == mark",
+          "implies(lastmark == mark, not truthy(lastresult))",
+          "self.in_recursive_rule == old(self.in_recursive_rule)",
+          "self._level == old(self._level) + (1 if self._verbose else 0)", "verbose == self._verbose"]
+
+C(f"{F}:memoize_left_rec.memoize_left_rec_wrapper", params=P, closure=WCL, returns="val", requires=POK + [CACHE_OK, LR_OK],
+  rulefn_preserves=[LR_OK],
+  ensures=KEEP + ["can_peek(self._tokenizer)", CACHE_OK, LR_OK, "self._level == old(self._level)",
+                  "self.in_recursive_rule == old(self.in_recursive_rule)",
+                  f"cache_has(self._cache, {KEYP})", f"result == cache_tree(self._cache, {KEYP})",
+                  f"implies(truthy(result), {IDX} == cache_end(self._cache, {KEYP}))",
+                  f"implies(not truthy(result), {IDX} == {OIDX})",          # a failed left-recursive rule restores the cursor
+                  f"{IDX} >= {OIDX}"],
+  loops={0: {"types": {"lastresult": "val"}, "inv": LR_INV,
+             # seed growing: every kept iteration ends strictly further right, and ends are bounded by the finite stream
+             "dec": "gen_len(self._tokenizer) - lastmark"}},
+  modifies=RULEMOD + ["self._level", "self.in_recursive_rule"], raises=["SyntaxError"], properties=["C01", "C03", "C15", "C17", "C18"])
+
+C(f"{F}:memoize_left_rec.memoize_left_rec_wrapper#product", params=P, closure=WCL, returns="val",
+  # entries of a left-recursive rule that record a failure end where they start (established by the wrapper's own writes)
+  requires=POK + [CACHE_OK, LR_OK], rulefn_preserves=[LR_OK],
+  loops={0: {"types": {"lastresult": "val"}, "inv": LR_INV, "dec": "gen_len(self._tokenizer) - lastmark"}},
+  product={"on": "self._verbose", "observe": OBS,
+           "related": ["self._tokenizer._index", "self._tokenizer._abs", "self._cache", "self.in_recursive_rule", "lastresult", "lastmark"]},
+  properties=["C15"])
